@@ -541,6 +541,7 @@ def overused_constant(source: str, *, root_is_static: bool) -> str:
     blacklisted_names = (
         tracing.get_imported_names(root)
         | tracing.get_defined_names(root)
+        | {name.id for name in core.walk(root, ast.Name)}
         | constants.BUILTIN_FUNCTIONS
         | constants.PYTHON_KEYWORDS
     )
@@ -592,19 +593,27 @@ def overused_constant(source: str, *, root_is_static: bool) -> str:
             common_scopes, key=lambda node: getattr(node, "lineno", 0), default=root
         )
         nodes = list(nodes)
+        static = best_common_scope is root and root_is_static
+        variable_name = None
         if (
             core.match_template(nodes[0], ast.Constant(value=str))
             and re.match(r"[a-zA-Z_]\w*", nodes[0].value)
             and re.sub(r"[^a-zA-Z0-9_]", "", nodes[0].value)
         ):
-            variable_name = nodes[0].value
-        else:
-            variable_name = f"pyrefact_overused_constant_{i}"
+            variable_name = style.rename_variable(nodes[0].value, static=static, private=False)
+            if variable_name in blacklisted_names or not variable_name.isidentifier():
+                variable_name = None
+
+        if variable_name is None:
+            while f"pyrefact_overused_constant_{i}" in blacklisted_names:
+                i += 1
+            variable_name = style.rename_variable(
+                f"pyrefact_overused_constant_{i}", static=static, private=False
+            )
             i += 1
 
-        variable_name = style.rename_variable(
-            variable_name, static=best_common_scope is root and root_is_static, private=False
-        )
+        # Every new name is checked, and is taken once
+        blacklisted_names |= {variable_name, variable_name.upper(), variable_name.lower()}
 
         name = ast.Name(id=variable_name)
         # Not core.parse: its result is cached and shared, and the position of assign is edited below.
